@@ -49,6 +49,15 @@ CONV = z3.Function("cartesian_derivative", IS, IS, RS)     # (evaluation point, 
 j0, i0, row0 = z3.Ints("j0 i0 row0")
 
 
+def n_rows(e, l):
+    """(l+1)^2 rows of the harmonic table; written with the harness's own half-degree symbol when the path condition proves l equal to it, so that
+    the shape agrees syntactically with the list of radial splines (no reliance on the solver for a nonlinear shape equality)."""
+    l = T.zi(l)
+    if e.proves(l == LH):
+        return (LH + 1) * (LH + 1)
+    return (l + 1) * (l + 1)
+
+
 def atom_obj(eng, lmax_term):
     g = I.Obj(eng.get_class(MOD, "AtomGrid"))
     g.fields.update(_degs=LZ.SymList(S, lambda s_: DEGS(T.zi(s_)), scalar=True), _center=I.Arr((3,), lambda c: z3.Real(f"centre{c}") if not T.is_sym(c) else
@@ -91,12 +100,12 @@ def interpolant(chk):
             def harm_contract(e, f, args, kwargs):
                 rec["harm"].append(list(args))
                 l = args[0]
-                return I.Arr(((T.zi(l) + 1) * (T.zi(l) + 1), NE), lambda row, j: YH(T.zi(row), T.zi(j)), "real")
+                return I.Arr((n_rows(e, l), NE), lambda row, j: YH(T.zi(row), T.zi(j)), "real")
 
             def dharm_contract(e, f, args, kwargs):
                 rec["dharm"].append(list(args))
                 l = args[0]
-                return I.Arr((2, (T.zi(l) + 1) * (T.zi(l) + 1), NE), lambda a, row, j: DYH(T.zi(a), T.zi(row), T.zi(j)), "real")
+                return I.Arr((2, n_rows(e, l), NE), lambda a, row, j: DYH(T.zi(a), T.zi(row), T.zi(j)), "real")
 
             def conv_contract(e, f, args, kwargs):
                 rec["conv"].append(list(args))
@@ -187,7 +196,7 @@ def interpolant(chk):
             chk.add(f"{name}/post/harmonics-up-to-half-the-largest-degree-at-the-angles-of-the-points", hy, z3.And(*goals), func=fq, meta={"replay": rep}, assumptions=asm)
             if variant in ("value", "radial-1", "radial-2", "radial-3"):
                 nu = 0 if variant == "value" else int(variant[-1])
-                eqs = [framework.match_sum(chk, f"{name}/sum-over-harmonics", app, ps_v[nu], 0, L - 1, hy, func=fq, meta={"replay": rep}, assumptions=asm)
+                eqs = [framework.match_sum(chk, f"{name}/sum-over-harmonics", app, ps_v[nu], 0, L - 1, hy, func=fq, meta={"replay": rep}, assumptions=asm, toplevel=True)
                        for app in framework.find_sites(T.zr(out.fn(j0)))]
                 chk.add(f"{name}/post/interpolant-is-the-sum-of-spline-{'values' if nu == 0 else 'derivatives'}-times-harmonics", hy + eqs + ps_v[nu].unfold(),
                         z3.And(z3.BoolVal(out.ndim == 1), T.zi(out.shape[0]) == NE, T.zr(out.fn(j0)) == ps_v[nu].P(T.zi(L))), func=fq, meta={"replay": rep}, assumptions=asm)
@@ -199,7 +208,7 @@ def interpolant(chk):
                 for a, ps, nm in comps:
                     term = T.resolve_ites(T.zr(out.fn(a * NE + j0)), hy + [NE >= 1, j0 >= 0, j0 < NE])
                     for app in framework.find_sites(term):
-                        eqs.append(framework.match_sum(chk, f"{name}/sum-over-harmonics-{nm}", app, ps, 0, L - 1, hy, func=fq, meta={"replay": rep}, assumptions=asm))
+                        eqs.append(framework.match_sum(chk, f"{name}/sum-over-harmonics-{nm}", app, ps, 0, L - 1, hy, func=fq, meta={"replay": rep}, assumptions=asm, toplevel=True))
                     gl.append(term == ps.P(T.zi(L)))
                 chk.add(f"{name}/post/spherical-derivatives-are-the-derivatives-of-the-same-interpolant", hy + eqs + ps_v[1].unfold() + ps_t.unfold() + ps_p.unfold(),
                         z3.And(*gl), func=fq, meta={"replay": rep}, assumptions=asm)
@@ -289,7 +298,7 @@ def band_limit_cut(chk):
 
         def harm(e, f, args, kwargs):
             rec["harm"].append(list(args))
-            return I.Arr(((T.zi(args[0]) + 1) * (T.zi(args[0]) + 1), NP), lambda row, j: BAS(T.zi(row), T.zi(j)), "real")
+            return I.Arr((n_rows(e, args[0]), NP), lambda row, j: BAS(T.zi(row), T.zi(j)), "real")
 
         def integ(e, f, args, kwargs):
             rec["int"].append(list(args))
@@ -405,7 +414,7 @@ def angular_integration(chk):
         asm = list(o.assumptions)
         chk.add_from_path(f"integrate_angular_coordinates/one-function/path{oi}", o, func=fq, meta={"replay": rep})
         term = T.zr(out.fn(i0))
-        eqs = [framework.match_sum(chk, "integrate_angular_coordinates/one-function/shell-sum", app, ps, OFF(i0), OFF(i0 + 1) - 1, hy, func=fq, meta={"replay": rep}, assumptions=asm)
+        eqs = [framework.match_sum(chk, "integrate_angular_coordinates/one-function/shell-sum", app, ps, OFF(i0), OFF(i0 + 1) - 1, hy, func=fq, meta={"replay": rep}, assumptions=asm, toplevel=True)
                for app in framework.find_sites(term)]
         chk.add("integrate_angular_coordinates/one-function/post/shell-value-is-the-weighted-sum-over-its-segment-without-the-radial-factor", hy + eqs,
                 z3.And(z3.BoolVal(out.ndim == 1), T.zi(out.shape[0]) == S, term == (ps.P(OFF(i0 + 1)) - ps.P(OFF(i0))) / (Rr(i0) * Rr(i0) * Rw(i0))), func=fq,
